@@ -82,7 +82,7 @@ def enc(rc, v):
     return GL.enc_value(rc, v)
 
 
-def build(rng, quick, origin=None):
+def build(rng, quick, origin=None, big=False):
     ntypes = rng.choice([1, 1, 2])
     # origin reference and copy number of the object names (ORIGIN is a UVARI: 1, 2 or 4 bytes on file)
     oref = rng.choice([1, 2, 41, 127, 128, 300, 16383, 16384, 70000])
@@ -98,6 +98,10 @@ def build(rng, quick, origin=None):
             # short or a long array - a waveform of 100 samples is 400 / 800 bytes at the front of every data record)
             dims = rng.choice([[1]] * 8 + [[2], [100]]) if c == 0 else rng.choice([[1], [1], [2], [3], [2, 2], [2, 3]])
             chs.append(dict(o=oref, c=copyno, name=('T%dC%d' % (t, c)).encode(), long_name=b'long name %d' % c, rc=rc, units=b'm' if c == 0 else b'', dims=dims))
+        if big and t == 0:
+            # a waveform channel of 2100 doubles: every data record is longer than a visible record can be, so the file has visible
+            # records of the maximum length 16384
+            chs.append(dict(o=oref, c=copyno, name=b'T0WAVE', long_name=b'waveform', rc=7, units=b'', dims=[2100]))
         chans_all += chs
         types.append(dict(name=b'FT%d' % t, fc=0, channels=chs, n=rng.choice([1, 2, 5, 9, 30] if not quick else [1, 2, 5, 9])))
     if ntypes == 2 and rng.random() < 0.3:
@@ -131,8 +135,8 @@ def build(rng, quick, origin=None):
         recs.append(dict(kind='I', type=0, enc=False))
     for rec, p in zip(recs, payloads):
         rec['len'] = len(p)
-    vm = rng.choice([64, 256, 8192])
-    lay = GD.random_layout(rng, recs, vm)
+    vm = rng.choice([64, 256, 8192]) if not big else 16384
+    lay = GD.random_layout(rng, recs, vm, style='fill' if big else None)
     data = GD.render(recs, lay, sul=GD.render_sul(1, vm), payloads=payloads).data
     return data, types, frame_nos
 
@@ -158,7 +162,7 @@ def run(ctx):
     pdir = ctx.wdir('pickle')
     traces, cases, meta = [], [], []
     for fi in range(ctx.pick(250, 6000)):
-        data, types, frame_nos = build(rng, ctx.quick)
+        data, types, frame_nos = build(rng, ctx.quick, big=(fi % 100 == 1))
         persisted = (fi % 3 == 2)
         try:
             if persisted:
